@@ -1227,9 +1227,14 @@ func sliceIndexes(args []cty.Value) (int, int, bool, error) {
 	list, _ := args[0].Unmark()
 
 	// If it's a tuple then we always know the length by the type, but collections might be unknown or have unknown length
-	if list.Type().IsTupleType() || list.Length().IsKnown() {
+	if list.Type().IsTupleType() || list.IsKnown() {
 		length = list.LengthInt()
 		lengthKnown = true
+	} else if l := list.Length(); l.IsKnown() {
+		// an unknown collection whose refined length bounds coincide
+		if err := gocty.FromCtyValue(l, &length); err == nil {
+			lengthKnown = true
+		}
 	}
 
 	if args[1].IsKnown() {
